@@ -1078,6 +1078,16 @@ func (e *Env) evalCall(n *Node) specVal {
 			blen := v.smt.declareFun("uf!blobLen", []string{"Int"}, "Int")
 			v.smt.axiom(fmt.Sprintf("(forall ((x Int)) (! (= (%s (%s x)) 20) :pattern ((%s x))))", blen, f, f))
 			return specVal{t: app(fromBlob, ite(eq(app(blen, b.t), "20"), b.t, app(f, b.t))), typ: h20}
+		case "lastarg":
+			// lastarg(F, i): the i-th argument (a pointer) of this function's latest call to F (F in `opt track`)
+			if args[0].Kind != NIdent {
+				e.fail("lastarg() takes a function name")
+			}
+			i, err := strconv.Atoi(args[1].String())
+			if err != nil {
+				e.fail("lastarg(): literal argument index")
+			}
+			return specVal{t: v.heap(e.st, v.ghostKey(fmt.Sprintf("lastarg!%s!%d", args[0].Name, i), "Int")), typ: types.Typ[types.UnsafePointer]}
 		case "transmitted":
 			// transmitted(m): message object m was handed to TransmitMessage during this call
 			x := e.eval(args[0])
